@@ -94,6 +94,20 @@ func C10(r *vf.Run) {
 			extra = []int{0x200, 0x1FF, 0x201, 0x400, 1, 0x7FFF}[g.Intn(6)] // e.g. a dump that still carries a 512-byte copier header
 		}
 		img := g.Bytes(nb*0x8000 + extra)
+		if !big && g.Intn(6) == 0 {
+			// a finished cartridge image: power-of-two size, complementary checksum pair holding the real
+			// 16-bit sum of all bytes
+			nb2 := []int{1, 2, 4, 8}[g.Intn(4)]
+			img = g.Bytes(nb2 * 0x8000)
+			nb = nb2
+			img[0x7FDC], img[0x7FDD], img[0x7FDE], img[0x7FDF] = 0xFF, 0xFF, 0, 0
+			var sum uint16
+			for _, x := range img {
+				sum += uint16(x)
+			}
+			img[0x7FDE], img[0x7FDF], img[0x7FDC], img[0x7FDD] = byte(sum), byte(sum>>8), byte(^sum), byte(^sum>>8)
+			cells["image:sealed-checksum"]++
+		}
 		// the name is the caller's business (a file name, usually): it says nothing about the bytes
 		name := []string{"c10", "game.sfc", "game.smc", "GAME.SWC", "x.fig", "rom.bin", "", "a.b.smc", "/tmp/dir.smc/game"}[g.Intn(9)]
 		rom, err := snes.NewROM(name, img)
